@@ -1,0 +1,34 @@
+//go:build verif
+
+package name
+
+// Machine-checked contracts (comment-only; compiled only with -tags verif).
+
+// The island/folder number: 1 + (xxhash64(sanctuary ++ realm ++ swamp) mod N).
+// hin_ref/hin_off/hin_len (ghost) identify the byte string handed to xxhash.
+//@ func (*name).GetFolderNumber(n, allFolders) (r)
+//@   property C20
+//@   nopanic
+//@   requires[n_positive] allFolders >= 1
+//@   modifies n.FolderNumber, ghost("hin_ref"), ghost("hin_off"), ghost("hin_len"), ghost("hout")
+//@   ensures[memo] old(n.FolderNumber) != 0 ==> r == old(n.FolderNumber)
+//@   ensures[range] old(n.FolderNumber) == 0 ==> 1 <= r && r <= allFolders
+//@   ensures[stored] r == n.FolderNumber
+//@   ensures[formula] old(n.FolderNumber) == 0 ==> r == ghost("hout") % allFolders + 1
+//@   ensures[hashed_len] old(n.FolderNumber) == 0 ==> ghost("hin_len") == len(n.SanctuaryID) + len(n.RealmName) + len(n.SwampName)
+//@   ensures[hashed_sanctuary] old(n.FolderNumber) == 0 ==> forall i in 0..len(n.SanctuaryID): bytesat(ghost("hin_ref"), ghost("hin_off") + i) == n.SanctuaryID[i]
+//@   ensures[hashed_realm] old(n.FolderNumber) == 0 ==> forall i in 0..len(n.RealmName): bytesat(ghost("hin_ref"), ghost("hin_off") + len(n.SanctuaryID) + i) == n.RealmName[i]
+//@   ensures[hashed_swamp] old(n.FolderNumber) == 0 ==> forall i in 0..len(n.SwampName): bytesat(ghost("hin_ref"), ghost("hin_off") + len(n.SanctuaryID) + len(n.RealmName) + i) == n.SwampName[i]
+
+//@ func generateHashedDirectoryPath(input, depth, maxFoldersPerLevel) (out)
+//@   property C20
+//@   nopanic
+//@   requires[depth] 0 <= depth && depth <= 1000000
+//@   loop 0 invariant[i] 0 <= i && i <= depth && len(parts) == depth && charsPerLevel >= 2 && charsPerLevel <= 17
+//@   modifies *
+
+//@ func generateSwampFolderName(swampName) (out)
+//@   property C20
+//@   nopanic
+//@   ensures[hexlen] 1 <= len(out) && len(out) <= 16
+//@   modifies *
